@@ -67,6 +67,23 @@ def csum_t_cfgs():
     return c
 
 
+def crc32_cfgs():
+    c = [{"MODE": 1}, {"MODE": 2}]
+    for ln in (0, 1, 2, 3):
+        for al in range(8):
+            quick = (ln == 1 and al in (0, 1, 3)) or (ln == 2 and al in (0, 3)) or (ln == 0 and al == 1)
+            c.append({"MODE": 3, "LEN": ln, "ALIGN": al, "_tier": "quick" if quick else "thorough"})
+    for ln, al in ((1, 0), (1, 1), (2, 2)):
+        c.append({"MODE": 4, "LEN": ln, "ALIGN": al})
+    for ln in (1, 2, 3):
+        for al in range(8):
+            if (ln, al) not in ((1, 0), (1, 1), (2, 2)):
+                c.append({"MODE": 4, "LEN": ln, "ALIGN": al, "_tier": "thorough"})
+    for m in (5, 6, 7, 8):
+        c.append({"MODE": m})
+    return c
+
+
 HARNESSES = [
     dict(name="csum_t", src="csum_t.c", extra_src=["lib/ext2fs/blknum.c"],
          funcs=["ext2fs_inode_csum_verify", "ext2fs_inode_csum_set", "ext2fs_inode_csum"],
@@ -76,6 +93,18 @@ HARNESSES = [
                "block of 1024 bytes with a concrete rec_len chain shape per query (3 valid, 2 invalid), all other bytes symbolic; superblock and MMP block "
                "1024 bytes; all identity terms (inum, generation, group, block number, seed, uuid) and all "
                "other feature bits symbolic"),
+    dict(name="crc16_d", src="crc16_d.c", funcs=["ext2fs_crc16"],
+         configs=[{"MODE": 1}] + [{"MODE": 2, "LEN": n} for n in (0, 1, 2, 3)],
+         unwindset=["ref_crc16_byte.0:9", "main.0:5", "ext2fs_crc16.0:5"], backends=["default", "kissat", "z3"],
+         bound="all 256 table entries; whole function for lengths 0..3, every 32-bit incoming value and content"),
+    dict(name="crc32c_d", src="crc32c_d.c", funcs=["ext2fs_crc32c_le", "crc32_body", "ext2fs_crc32_be"],
+         configs=crc32_cfgs(),
+         unwindset=["ref_le_byte.0:9", "ref_be_byte.0:9", "main.0:9", "main.1:9", "crc32_body.0:5", "crc32_body.1:3",
+                    "crc32_body.2:9"],
+         backends=["default", "kissat", "z3"],
+         bound="all 8x256 entries of both tables; whole function lengths 0..3 at alignments 0..7 (quick: a "
+               "subset), symbolic seed and data; one aligned slice-by-8 step split in its two linear halves "
+               "(32 symbolic bits each)"),
 ]
 
 MANIFEST = {
